@@ -206,6 +206,23 @@ def cls_langs():
         assoc('Storage', 'Disk', 'mirrorOf', '*', '*', 'mirrors', 'Disk'),
         assoc('Storage', 'Disk', 'before', '0..1', '0..1', 'after', 'Disk'),
     ], lang_id='org.verif.cls6')
+    # same name, same two types, same two field names - swapped between the sides
+    out['swapfields'] = spec([
+        asset('Host', steps=[step('go', 'or', reaches=[COL(F('dst'), S('fwd')), COL(F('src'), S('fwd'))])]),
+        asset('Router', steps=[step('fwd', 'or', reaches=[COL(F('src'), S('go'))])]),
+        asset('Edge', sup='Router'),
+    ], [
+        assoc('Flow', 'Host', 'src', '*', '*', 'dst', 'Router'),
+        assoc('Flow', 'Host', 'dst', '*', '0..1', 'src', 'Router'),
+    ], lang_id='org.verif.cls8')
+    # sub-entry names that coincide because asset names contain underscores
+    out['underscore'] = spec([
+        asset('Net_Zone', steps=[step('go', 'or', reaches=[COL(F('members'), S('go'))])]), asset('Host', steps=[step('go', 'or')]),
+        asset('Net', steps=[step('go', 'or', reaches=[COL(F('members'), S('go'))])]), asset('Zone_Host', steps=[step('go', 'or')]),
+    ], [
+        assoc('Conn', 'Net_Zone', 'zones', '*', '*', 'members', 'Host'),
+        assoc('Conn', 'Net', 'zones', '0..1', '*', 'members', 'Zone_Host'),
+    ], lang_id='org.verif.cls9')
     # a language that declares no association at all
     out['noassoc'] = spec([
         asset('Aa', steps=[step('go', 'or', reaches=[S('end')]), step('end', 'and'), step('dd', 'defense', ttc=fn('Enabled'), reaches=[S('end')])]),
